@@ -217,7 +217,7 @@ pub fn run(scn: &Value) -> Value {
     let rec = |e: &(u64, &'static str, &'static str, i64, i64)| json!({"t": e.0 as i64, "e": e.2, "a": e.3, "b": e.4});
     let sv: Vec<Value> = sink.ev.iter().take(lin).filter(|e| e.1 == "sv").map(rec).collect();
     let cl: Vec<Value> = sink.ev.iter().take(lin).filter(|e| e.1 == "cl").map(rec).collect();
-    let late: Vec<Value> = sink.ev.iter().skip(lin).filter(|e| e.1 != "rd").map(rec).collect();
+    let late: Vec<Value> = sink.ev.iter().skip(lin).filter(|e| e.1 == "sv").map(rec).collect();
     let reads = sink.ev.iter().filter(|e| e.1 == "rd").count();
     json!({"kind": "timers", "sv": sv, "cl": cl, "late": late, "reads": reads as i64, "jit": jit as i64, "unit": UNIT_MS as i64})
 }
